@@ -56,8 +56,9 @@ func (c *checkSchema) checkType(name string, typ schema.Type, ss map[string]sche
 
 		// Return an error with the full set of bytes of the root schema.
 		if documentError, ok := r.(errors.DocumentError); ok {
+			// The nodes of a type, named or not, carry positions in the type's
+			// root file already, so the position must not be shifted again.
 			documentError.SetFile(typ.RootFile())
-			documentError.SetIndex(documentError.Index() + typ.Begin())
 			documentError.SetIncorrectUserType(name)
 			panic(documentError)
 		}
